@@ -34,6 +34,7 @@ type World struct {
 	ssaPkgs map[*types.Package]*ssa.Package
 	cgCHA   *callgraph.Graph
 	cgVTA   *callgraph.Graph
+	modFuncs map[*ssa.Function]bool
 
 	declOf map[*types.Func]*ast.FuncDecl
 	fileOf map[*ast.FuncDecl]*packages.Package
